@@ -123,6 +123,14 @@ def run(v) -> None:
             temps = [[rng.randrange(0, 5) for _ in range(rng.randrange(1, min(n, 9)))] for _ in range(k)]
             temps = [t if any(t) else [1] for t in temps]
             cases.append({"api": "kernel", "kind": "custom", "z": z, "temps": temps, "refs": [rng.randrange(0, len(t)) for t in temps]})
+    for n, (fn, fd) in ([(8, (2, 1)), (16, (2, 1)), (12, (3, 2))] if quick else [(8, (2, 1)), (16, (2, 1)), (32, (2, 1)), (12, (3, 2)), (9, (3, 2)), (13, (5, 4))]):
+        # a bank that reaches the data length itself: its widest boxcar has no variance left after mean removal (a null template)
+        for rep in range(2):
+            z = [rng.randrange(0, 10) for _ in range(n)]
+            if rep:
+                z = [1] * n
+                z[n // 2], z[n // 2 + 1] = 9, 9
+            cases.append({"api": "MatchedFilter", "kind": "boxcar", "z": z, "mx": n, "fn": fn, "fd": fd, "inv": None})
     for n in ([12, 17, 24, 33] if quick else [12, 13, 17, 20, 24, 29, 33, 40, 48]):      # noiseless pulses under the DEFAULT standardisation
         for w in (1, 2, 3):
             for t0 in (0, n - w, rng.randrange(1, n - w)):
